@@ -186,6 +186,12 @@ class _:
         F = SM.full()
         if not same(F.data, M):
             raise Fail("sptenmat:entries(full)", f"{case}")
+        # the dense matricization must report the same mode split and denote the same tensor
+        if list(F.rindices) != er or list(F.cindices) != ec or tuple(F.tshape) != shp:
+            raise Fail("sptenmat:full:mode-split", f"{case}: {F.rindices} {F.cindices} {F.tshape}")
+        FT = F.to_tensor()
+        if tuple(FT.shape) != shp or not same(FT.data, X):
+            raise Fail("sptenmat:full:tensor", f"{case}")
         if SM.nnz != int((X != 0).sum()):
             raise Fail("sptenmat:nnz", f"{case}")
         S2 = SM.to_sptensor()
